@@ -37,7 +37,7 @@ RULE = ('reentry jobs: one (traversal, tree) pair per seed; for every callback i
         'distinct = distinct (job kind, operation, callback site, interference, container kind, outcome class)')
 ASSUMPTIONS = [
     'memory-safety oracle = process survival on the plain build and AddressSanitizer+UBSan silence on the asan build '
-    '(PYTHONMALLOC=malloc so list/dict storage is individually red-zoned)',
+    '(PYTHONMALLOC=malloc so list/dict storage is individually red-zoned; -D_GLIBCXX_SANITIZE_VECTOR so that the unused capacity of every std::vector of the engine is poisoned)',
     'an InternalError/SystemError raised after a container was mutated mid-traversal counts as "a Python exception" '
     '(allowed by the statement); it is counted in a probe, not reported',
     'Python recursion limit raised to 20000 in depth jobs so that only optree\'s own MAX_RECURSION_DEPTH is measured',
@@ -53,7 +53,7 @@ EXPECTED_PROBES = ('state:field', 'state:bytes-flip', 'state:drop-node', 'state-
 
 TRAVERSALS = ('flatten', 'flatten_with_path', 'iter', 'flatten_up_to', 'map', 'map_with_path', 'broadcast_prefix',
               'broadcast_common', 'prefix_errors', 'from_collection', 'leaves', 'structure', 'is_prefix_after', 'unflatten',
-              'walk', 'all_leaves', 'transpose_map', 'one_level', 'unflatten_list', 'unflatten_list', 'walk_list')
+              'walk', 'all_leaves', 'transpose_map', 'one_level', 'unflatten_list', 'unflatten_list', 'walk_list', 'spec_ops', 'spec_ops')
 MUTATIONS = ('delete_front', 'delete_back', 'clear', 'append', 'replace', 'rotate')
 REENTRIES = ('iter_next', 'flatten', 'unflatten', 'register', 'gc', 'dictmode')
 
@@ -232,6 +232,27 @@ class RScn:
                 return x
 
             return spec.walk(leaves, f_node, f_leaf)
+        if name == 'spec_ops':
+            # operations that work on treespecs only (their scratch vectors are what the sanitizer build watches)
+            spec = optree.tree_structure(tree, is_leaf=self.pred, **kw)
+            other = optree.tree_structure(tree2, **kw)
+
+            def f_tnode(sp):
+                U._h('f_node')
+                return sp
+
+            def f_tleaf(sp):
+                U._h('f_leaf')
+                return sp
+
+            out = [optree.treespec_transform(spec, f_tnode, f_tleaf), optree.treespec_transform(other, None, f_tleaf), spec.compose(other.child(0) if other.num_children else other),
+                   spec.broadcast_to_common_suffix(other), other.broadcast_to_common_suffix(spec), spec.children(), spec.one_level(), spec.paths(), spec.accessors(),
+                   spec.is_prefix(other), other.is_suffix(spec), spec.traverse(list(range(spec.num_leaves)), lambda x: (U._h('f_node'), x)[1], None),
+                   pickle.loads(pickle.dumps(other)), copy.deepcopy(spec), optree.treespec_tuple([spec, other], **kw),
+                   optree.tree_transpose(other, optree.tree_structure((0, 0), **kw), other.unflatten([(i, i) for i in range(other.num_leaves)]))]
+            for sp in out[:5]:
+                repr(sp), hash(sp)
+            return len(out)
         if name == 'all_leaves':
             col = [tree, tree2] + list(py_children(tree) or [])
             self.recent = [col]
